@@ -114,7 +114,44 @@ const AttrDef kAttrs[] = {
     { "Username", 0x0006 }, { "IceControlling", 0x802a }, { "IceControlled", 0x8029 }
 };
 
-bool buildMessage(const QJsonObject &m, QXmppStunMessage &msg)
+// the seven address-valued attributes of an object, by specification name
+QHostAddress *hostField(QXmppStunMessage &m, const QString &n, quint16 **port)
+{
+    if (n == "Mapped") { *port = &m.mappedPort; return &m.mappedHost; }
+    if (n == "Source") { *port = &m.sourcePort; return &m.sourceHost; }
+    if (n == "Changed") { *port = &m.changedPort; return &m.changedHost; }
+    if (n == "Other") { *port = &m.otherPort; return &m.otherHost; }
+    if (n == "XorMapped") { *port = &m.xorMappedPort; return &m.xorMappedHost; }
+    if (n == "XorPeer") { *port = &m.xorPeerPort; return &m.xorPeerHost; }
+    if (n == "XorRelayed") { *port = &m.xorRelayedPort; return &m.xorRelayedHost; }
+    return nullptr;
+}
+
+// Round trip of the address attributes judged on the objects themselves: QHostAddress equality and protocol()
+// of what was set against what came back, and the port.  A scope id is not part of a STUN address (RFC 5389
+// 15.1: family, port, 4 or 16 address bytes): the comparison is modulo scope id.  An attribute set with port 0
+// is "not set" for the library and is not looked at.
+bool hostsEqual(const QJsonObject &mset, QXmppStunMessage &built, QXmppStunMessage &decoded, QString *why)
+{
+    const auto attrs = mset["a"].toArray();
+    for (const auto &av : attrs) {
+        const QString n = av.toObject()["n"].toString();
+        quint16 *ps = nullptr, *pd = nullptr;
+        QHostAddress *hs = hostField(built, n, &ps), *hd = hostField(decoded, n, &pd);
+        if (!hs || !hd || *ps == 0) {
+            continue;
+        }
+        QHostAddress s = *hs;
+        s.setScopeId(QString());
+        if (!(s == *hd) || s.protocol() != hd->protocol() || *ps != *pd) {
+            *why = n + ": set " + hs->toString() + " port " + QString::number(*ps) + ", decoded " + hd->toString() + " port " + QString::number(*pd);
+            return false;
+        }
+    }
+    return true;
+}
+
+bool buildMessage(const QJsonObject &m, QXmppStunMessage &msg, const QJsonArray &scoped = {})
 {
     msg.setType(quint16(m["type"].toInt()));
     const QByteArray id = fromJ(m["id"]);
@@ -123,11 +160,22 @@ bool buildMessage(const QJsonObject &m, QXmppStunMessage &msg)
     }
     msg.setId(id);
     const auto attrs = m["a"].toArray();
+    int idx = -1;
     for (const auto &av : attrs) {
         const auto a = av.toObject();
         const QString n = a["n"].toString();
         const QByteArray b = fromJ(a["b"]);
         const int x = a["x"].toInt();
+        idx++;
+        quint16 *pp = nullptr;
+        if (QHostAddress *hp = hostField(msg, n, &pp)) {
+            *hp = addrOf(b);
+            if (idx < scoped.size() && scoped[idx].toBool()) {
+                hp->setScopeId(QStringLiteral("lo"));   // e.g. fe80::1%lo
+            }
+            *pp = quint16(x);
+            continue;
+        }
         if (n == "Mapped") {
             msg.mappedHost = addrOf(b);
             msg.mappedPort = quint16(x);
@@ -285,9 +333,13 @@ void runCase(Ctx &ctx, const QJsonObject &b, QVector<QPair<QByteArray, int>> &po
     const QJsonObject m = b["m"].toObject();
     const int klen = b["klen"].toInt();
     const bool fp = b["fp"].toBool();
-    ctx.reset(caseId, { { "kind", "case" }, { "m", m }, { "klen", klen }, { "fp", fp }, { "sub", b["sub"] }, { "v", b["v"] } });
+    // what the application sets (mset: includes address attributes with port 0 and scope ids) vs the message
+    // that is thereby built (m)
+    const QJsonObject mset = b.contains("mset") ? b["mset"].toObject() : m;
+    ctx.reset(caseId, { { "kind", "case" }, { "m", m }, { "klen", klen }, { "fp", fp }, { "sub", b["sub"] }, { "v", b["v"] },
+                        { "ac", b["ac"].toInt() }, { "pc", b["pc"].toInt() } });
     QXmppStunMessage msg;
-    if (!buildMessage(m, msg)) {
+    if (!buildMessage(mset, msg, b["scoped"].toArray())) {
         fprintf(stderr, "stun: bad message description in case %s\n", qPrintable(caseId));
         exit(2);
     }
@@ -338,6 +390,11 @@ void runCase(Ctx &ctx, const QJsonObject &b, QVector<QPair<QByteArray, int>> &po
                 const bool ok = d.decode(kn == "same" ? *rbuf : bytes, kv.second);
                 QJsonObject ev { { "e", "Decode" }, { "key", kn == "other" ? "other" : kn }, { "kv", kv.first }, { "ok", ok } };
                 ev["d"] = ok ? project(d) : emptyMsg();
+                QString why;
+                ev["heq"] = !ok || hostsEqual(mset, msg, d, &why);
+                if (!why.isEmpty()) {
+                    ev["hwhy"] = why;
+                }
                 // what was decoded, encoded again the same way, gives the same bytes
                 ev["re"] = ok && kn != "other" && d.encode(key, fp) == bytes;
                 ctx.emit_(ev);
